@@ -119,16 +119,31 @@ def gen_inflate(tier, rng):
         pts = range(0, n + 1) if n <= 48 else sorted(set([1, 2, 3, 9, 10, 11, 12, 13, n // 2, n - 9, n - 8, n - 5, n - 4, n - 1] + [rng.randrange(1, n) for _ in range(4)]))
         for kk in pts:
             if 0 <= kk <= n:
-                scns.append(igz.scenario(len(scns), "inflate", list(st), wrap=wrap, calls=[[kk, 1 << 16, 0, 0], [n - kk, 1 << 16, 0, 0]], mem=k % 3, prefill=k % 3, meta={"family": "in-split"})); k += 1
+                scns.append(igz.scenario(len(scns), "inflate", list(st), wrap=wrap, calls=[[kk, 1 << 16, 0, 0], [n - kk, 1 << 16, 0, 0]], mem=k % 3, prefill=k % 3, meta={"family": "in-split", "salt": k % 6})); k += 1
         for a, b in [(1, 1), (1, 1 << 16), (1 << 16, 1), (2, 7), (7, 2), (3, 257), (257, 3), (9, 8), (8, 9)]:
-            scns.append(igz.scenario(len(scns), "inflate", list(st), wrap=wrap, calls=[], tail_ai=a, tail_ao=b, cap=200000, mem=k % 3, prefill=k % 3, meta={"family": "pair"})); k += 1
+            if n > 8000 and min(a, b) < 3: continue          # tiny pieces on the long streams: hundreds of thousands of calls each, nothing new
+            scns.append(igz.scenario(len(scns), "inflate", list(st), wrap=wrap, calls=[], tail_ai=a, tail_ao=b, cap=200000, mem=k % 3, prefill=k % 3, meta={"family": "pair", "salt": k % 6})); k += 1
         for _ in range(2 if tier == "quick" else 8):
             calls = [[rng.choice(SIZES), rng.choice(SIZES[1:]), 0, 0] for _ in range(60)]
-            scns.append(igz.scenario(len(scns), "inflate", list(st), wrap=wrap, calls=calls, tail_ai=rng.choice([1, 5, 64]), tail_ao=rng.choice([1, 9, 300]), cap=200000, mem=k % 3, meta={"family": "random"})); k += 1
+            scns.append(igz.scenario(len(scns), "inflate", list(st), wrap=wrap, calls=calls, tail_ai=rng.choice([1, 5, 64]), tail_ao=rng.choice([1, 9, 300]), cap=200000, mem=k % 3, meta={"family": "random", "salt": k % 6})); k += 1
         # model-guided schedule: the harness takes the least-visited (room class, input hand-over class) from the (block_state, staged) the stream is in
         for _ in range(1 if tier == "quick" else 4):
             scns.append(igz.scenario(len(scns), "inflate", list(st), wrap=wrap, calls=[], tail_ai=max(n, 1), tail_ao=1 << 16, cap=max(600, 6 * n), mem=k % 3, prefill=k % 3,
                                      meta={"family": "model-guided", "adaptive": 1 + rng.randrange(1 << 20)})); k += 1
+    # a stream of short-code blocks larger than the decoder's 64 KiB staging buffer: the first output buffer ends at / around block ends beyond
+    # 64 KiB, and the first input piece ends at every byte near the place where the staging buffer fills (see C02 for the full family)
+    import defgen
+    pst, ends = defgen.packed_stream(rng, total=70000); pst = bytes(pst); n = len(pst)
+    dd = zlib.decompressobj(-15); o = 0; off = n // 2
+    for i in range(n):
+        o += len(dd.decompress(pst[i:i + 1]))
+        if o >= 65536: off = i; break
+    j = 0
+    for e in [e for e in ends if e > 65536 + 300][: (8 if tier == "quick" else 40)]:
+        for x in (e - 2, e - 1, e, e + 1):
+            scns.append(igz.scenario(len(scns), "inflate", list(pst), wrap=0, calls=[[n, x, 0, 0], [0, 1 << 17, 0, 0]], tail_ai=n, tail_ao=1 << 17, cap=4000, mem=j % 3, meta={"family": "packed-big-output-at-block-end", "salt": j % 6})); j += 1
+    for cut in range(off - 16, off + 4):
+        scns.append(igz.scenario(len(scns), "inflate", list(pst), wrap=0, calls=[[cut, 1 << 17, 0, 0], [n - cut, 1 << 17, 0, 0]], tail_ai=n, tail_ao=1 << 17, cap=4000, mem=j % 3, meta={"family": "packed-big-input-cut", "salt": j % 6})); j += 1
     return scns
 
 def run(tier, replay=None):
